@@ -7,7 +7,7 @@ if [ -n "$(git -C /repo status --porcelain)" ]; then echo "/repo is not clean"; 
 ids=("$@")
 out=seeded/RESULTS.md
 tmp=$(mktemp /verif/.work/seeded.XXXXXX)
-for d in seeded/C*/*/; do
+for d in /verif/seeded/C*/*/; do
   id=$(basename "$(dirname "$d")"); name=$(basename "$d")
   if [ ${#ids[@]} -gt 0 ] && [[ ! " ${ids[*]} " =~ " $id " ]]; then continue; fi
   [ -f "$d/patch.diff" ] || continue
